@@ -570,7 +570,7 @@ package errbase
 // a FULL_MESSAGE wrapper overrides its cause (next == nil) whatever its stored text is; a prefix
 // wrapper always continues with its cause
 //@ method (*opaqueWrapper).SafeFormatError
-//@   props C04 C09
+//@   props C04 C09 C01
 //@   requires p != nil
 //@   ensures result == (self.messageType == FullMessage ? nil : self.cause)
 //@   ensures len(self.prefix) > 0 ==> len($pargs) > len(old($pargs)) && $pargs[len(old($pargs))] == ifaceOf(self.prefix)
@@ -578,7 +578,7 @@ package errbase
 //@           invariant len(self.prefix) > 0 ==> len($pargs) > len(old($pargs)) && $pargs[len(old($pargs))] == ifaceOf(self.prefix)
 
 //@ method (*opaqueLeaf).SafeFormatError
-//@   props C04 C09
+//@   props C04 C09 C01
 //@   requires p != nil
 //@   ensures result == nil
 //@   ensures len($pargs) > len(old($pargs)) && $pargs[len(old($pargs))] == ifaceOf(self.msg)
